@@ -85,6 +85,9 @@ type State struct {
 	AnKSets   []AnKSet    `json:"anksets,omitempty"`
 	// AnKeysFirst: the access node saw the eon key broadcasts before the keyper set events
 	AnKeysFirst bool `json:"ankeysfirst,omitempty"`
+	// AnSetsAgain: after that, the keyper set events were reported to the access node once more
+	// (initial poll plus the subscription starting at the same block, or a re-delivery)
+	AnSetsAgain bool `json:"ansetsagain,omitempty"`
 }
 
 func (s *State) Clone() *State {
